@@ -21,6 +21,14 @@
      context value (the single argument itself for one argument) and its input scope;
    * a list literal evaluates every item on a copy of the stack and takes the item stack's top;
      an item that leaves its stack empty contributes nothing;
+   * variables: the documents define no scoping at all (Structures.md only says that a named
+     parameter is "a local variable with the same name").  Adopted, the behaviour of the emitted
+     Python: a name assigned anywhere inside a function, lambda or list item (variable set, named
+     loop variable, function definition, named parameter) is LOCAL to it; it is visible to the
+     functions defined inside it, also after it has returned; reading it before it was assigned is
+     an error even when a global of that name exists; every other name is a global read at the time
+     of the read (so functions can call each other and themselves by name, and a name can be
+     redefined); a named function knows itself under its name;
    * in a while loop the context value is the condition value just tested;
    * early exits (elements.yaml: X "Break out of the current loop or function", x "Call current
      function (Recursion)"): X leaves the innermost loop, or the running lambda with the top of
@@ -52,9 +60,10 @@ Definition with_scope {A} (args : list value) : (state -> xres (A * state)) -> s
 Definition with_stack {A} (st : list value) : (state -> xres (A * state)) -> state -> xres (A * state) :=
   bracket (fun s => set_stk s st) (fun s0 s' => set_stk s' (stk s0)).
 
-(* the local variables of a function (its named parameters) are visible in its own code only *)
-Definition with_locals {A} (l : list (str * value)) : (state -> xres (A * state)) -> state -> xres (A * state) :=
-  bracket (fun s => set_locs s l) (fun s0 s' => set_locs s' (locs s0)).
+(* the variables a piece of code sees: a function's own locals (what it assigns, its named parameters)
+   and, behind them, those of the functions it was defined in; put back when the function is left *)
+Definition with_env {A} (names : list str) (env : list nat) : (state -> xres (A * state)) -> state -> xres (A * state) :=
+  bracket (enter_def names env) (fun s0 s' => set_cur s' (cur s0)).
 
 (* the running function: what `x` calls; and the chain of running lambdas *)
 Definition with_this {A} (f : option closure) : (state -> xres (A * state)) -> state -> xres (A * state) :=
@@ -74,7 +83,7 @@ Section Step.
      input scope; the result is the top of its own stack, or what an X in its body returned *)
   Definition r_lambda (self : option closure) (c : closure) (popped : list value) : state -> xres (value * state) :=
     with_stack (rev popped)
-      (with_locals []
+      (with_env (decl_of c) (c_env c)
          (with_this self
             (with_function self
                (with_context (context_of popped)
@@ -104,23 +113,24 @@ Section Step.
         xdo (s2, more, loc) <- r_params r s1; XOk (s2, popped ++ more, loc)
     end.
 
-  (* later parameters of the same name win *)
-  Definition bind_all (l : list (str * value)) : list (str * value) :=
-    fold_left (fun acc kv => assign (fst kv) (snd kv) acc) l [].
-
   (* a named function takes its arguments from the current stack; "the entire function stack"
      is the result *)
   Definition r_named (c : closure) (s : state) : xres (list value * state) :=
     xdo (s1, ps, loc) <- r_params (c_params c) s;
     with_stack (rev ps)
-      (with_locals (bind_all loc)
-         (with_this (Some c)
-            (with_context (VList ps)
-               (with_scope (rev ps)
-                  (with_registered
-                     (fun s =>
-                        xdo (g, s') <- rec (c_body c) s;
-                        match g with SNorm => XOk (stk s', s') | _ => XErr ENotCore end)))))) s1.
+      (with_env (decl_of c) (c_env c)
+         (fun s =>
+            (* the named parameters are locals of the function; it knows itself by its name *)
+            let s := bind_params loc s in
+            with_context (VList ps)
+              (with_registered
+                 (with_scope (rev ps)
+                    (fun s =>
+                       xdo f <- of_name (lookup_var (c_name c) s);
+                       with_this (match f with VFun c' => Some c' | _ => None end)
+                         (fun s =>
+                            xdo (g, s') <- rec (c_body c) s;
+                            match g with SNorm => XOk (stk s', s') | _ => XErr ENotCore end) s))) s)) s1.
 
   (* applying a function value to explicit arguments *)
   Definition r_app : app_t := fun c args s =>
@@ -153,7 +163,7 @@ Section Step.
           match lookup_var (tv t) s with Some v => XOk (push v s) | None => XErr EName end
         else XErr ENotCore
     | KVarSet =>
-        if name_ok (tv t) then let (s1, v) := pop1 s in XOk (set_vars s1 (assign (tv t) v (vars s1)))
+        if name_ok (tv t) then let (s1, v) := pop1 s in XOk (assign_var (tv t) v s1)
         else XErr ENotCore
     | KString | KCharacter | KCompString =>
         match string_value t with Some v => XOk (push (VStr v) s) | None => XErr ENotCore end
@@ -218,7 +228,7 @@ Section Step.
     match items with
     | [] => XOk (SNorm, s)
     | x :: r =>
-        let s1 := match var with Some v => set_vars s (assign v x (vars s)) | None => s end in
+        let s1 := match var with Some v => assign_var v x s | None => s end in
         xdo (g, s2) <- with_context x (rec body) s1;
         match g with
         | SNorm | SCont => r_for var body r s2
@@ -231,7 +241,7 @@ Section Step.
     match its with
     | [] => XOk ([], s)
     | x :: r =>
-        xdo (top, s1) <- with_stack (stk s) (with_locals []
+        xdo (top, s1) <- with_stack (stk s) (with_env (assigned_list x) (cur s)
                            (fun s => xdo (g, s') <- rec x s;
                                      match g with SNorm => XOk (hd_error (stk s'), s') | _ => XErr ENotCore end)) s;
         xdo (vs, s2) <- r_items r s1;
@@ -272,13 +282,13 @@ Section Step.
     | SFnDef n ps body =>
         if name_ok (keep re_keep_fndef n) then
           match params_of ps with
-          | Some params => XOk (SNorm, set_vars s (assign (keep re_keep_fndef n) (VFun (mk_named params body)) (vars s)))
+          | Some params => XOk (SNorm, assign_var (keep re_keep_fndef n) (VFun (mk_named (keep re_keep_fndef n) params body (cur s))) s)
           | None => XErr ENotCore
           end
         else XErr ENotCore
-    | SLambda a body => XOk (SNorm, push (VFun (mk_lambda a body)) s)
+    | SLambda a body => XOk (SNorm, push (VFun (mk_lambda a body (cur s))) s)
     | SLamOp o body =>
-        let s1 := push (VFun (mk_lambda (Some 1) body)) s in
+        let s1 := push (VFun (mk_lambda (Some 1) body (cur s))) s in
         match o with
         | OpMap => norm (elem_sem cf r_app r_callstk 77%N s1)
         | OpFilter => norm (elem_sem cf r_app r_callstk 70%N s1)
@@ -286,9 +296,9 @@ Section Step.
         end
     | SList its => xdo (vs, s1) <- r_items its s; XOk (SNorm, push (VList vs) s1)
     | SMod1 m a =>
-        if mem m mod1_keys then norm (mod1_sem cf r_app r_callstk m (operand_closure a) s) else XErr ENotCore
+        if mem m mod1_keys then norm (mod1_sem cf r_app r_callstk m (operand_closure a (cur s)) s) else XErr ENotCore
     | SMod2 m a b =>
-        if mem m mod2_keys then norm (mod2_sem r_app m (operand_closure a) (operand_closure b) s) else XErr ENotCore
+        if mem m mod2_keys then norm (mod2_sem r_app m (operand_closure a (cur s)) (operand_closure b (cur s)) s) else XErr ENotCore
     | _ => XErr ENotCore
     end.
 End Step.
